@@ -2297,7 +2297,13 @@ class Transport(threading.Thread, ClosingContextManager):
             except Exception as e:
                 self._log(ERROR, "Unknown exception: " + str(e))
                 self._log(ERROR, util.tb_strings())
-                self.saved_exception = e
+                # Whatever else the peer's data triggered is still reported
+                # through the documented exception hierarchy (cause kept).
+                wrapped = SSHException(
+                    "Unexpected {}: {}".format(type(e).__name__, e)
+                )
+                wrapped.__cause__ = e
+                self.saved_exception = wrapped
             _active_threads.remove(self)
             for chan in list(self._channels.values()):
                 chan._unlink()
